@@ -97,3 +97,16 @@ Definition encoding_ok (e : string * string * bool * string) : bool :=
   let '(_, enc, repeated, ty) := e in
   if String.eqb enc "legacy_coins" then repeated && String.eqb ty "cosmos.base.v1beta1.Coin"
   else String.eqb enc "".
+
+(* what the user types is what is sent: a flag option names a field of the request, does not hide it, and carries no
+   default value (a default is sent although the user typed nothing) *)
+Definition flag_option_ok (svcs : list service) (msgs : list (string * list field)) (f : string * string * string * string * bool) : bool :=
+  let '(kind, rpc, field, default, hidden) := f in
+  String.eqb default "" && negb hidden &&
+  match request_of svcs kind rpc with
+  | Some req => match assoc req msgs with
+                | Some fields => existsb (fun x => String.eqb (fst (fst x)) field) fields
+                | None => false
+                end
+  | None => false
+  end.
